@@ -1,3 +1,46 @@
-From Coq Require Import List String.
-Example C04_placeholder : True. Proof. exact I. Qed.
-Print Assumptions C04_placeholder.
+(** C04 — updating a Sid by query or get_with is all-or-nothing and never guesses.  Property theorems only. *)
+From Coq Require Import List String Ascii Bool Arith Permutation.
+From Spil Require Import Base.Str Base.Dict Base.Outcome Regex.Re Regex.MatchProofs Resolva.Template Resolva.Resolver
+  Conf.Conf Conf.WF Sid.Query Sid.Sid Sid.TypingSpec Sid.TypingProofs Sid.SidProofs Sid.QueryStringProofs Sid.QueryProofs.
+From SpilGen Require Hamlet.
+Import ListNotations.
+Local Open Scope string_scope.
+
+(* the SpilException branches of apply_query are unreachable: it raises only if the query text is outside the modelled urllib fragment *)
+Theorem C04_never_raises : forall c Ld, load c = Some Ld -> wf_loadedb Ld = true ->
+  forall s q t d ov, (t = "" -> d = []) -> update d q = Ok ov ->
+  exists res, apply_query Ld s q t d = Ok res.
+Proof. exact apply_query_never_raises. Qed.
+Print Assumptions C04_never_raises.
+
+(* either untouched with the query visibly kept in the string, or: fields = old fields overlaid (as a dictionary),
+   typed by the key set, clean canonical string ([forced] = the type's template accepts the whole string and gives exactly these fields) *)
+Theorem C04_all_or_nothing : forall c Ld, load c = Some Ld -> wf_loadedb Ld = true ->
+  forall s q t d s' t' d', NoDup (map fst d) -> apply_query Ld s q t d = Ok (s', t', d') -> q <> "" ->
+  (s' = s ++ "?" ++ q /\ t' = t /\ d' = d) \/
+  (exists ov, update d q = Ok ov /\ (forall k, dget d' k = dget ov k) /\ List.length d' = List.length ov /\
+              forced Ld t' s' = Some (t', d')).
+Proof. exact apply_query_all_or_nothing. Qed.
+Print Assumptions C04_all_or_nothing.
+
+(* get_with(key=value...): the Sid with exactly the overlaid fields, or the empty Sid; never a typed Sid with other fields *)
+Theorem C04_get_with_exact : forall c Ld, load c = Some Ld -> wf_loadedb Ld = true ->
+  forall x kw y, get_with_kw Ld x kw = Ok y ->
+  y = empty_sid \/
+  (sid_bool y = true /\ (forall k, dget (s_fields y) k = dget (apply_kwargs (s_fields x) kw) k) /\
+   forced Ld (s_type y) (s_string y) = Some (s_type y, s_fields y)).
+Proof. exact get_with_kw_exact. Qed.
+Print Assumptions C04_get_with_exact.
+
+(* a None value removes the key, also when it is absent (D3, fixed) *)
+Example C04_none_absent :
+  get_with_kw Hamlet.the_loaded (mkSid "hamlet/a/char/x" "asset__asset" [("project","hamlet");("type","a");("assettype","char");("asset","x")]) [("task", None)]
+  = Ok (mkSid "hamlet/a/char/x" "asset__asset" [("project","hamlet");("type","a");("assettype","char");("asset","x")]).
+Proof. vm_compute. reflexivity. Qed.
+Print Assumptions C04_none_absent.
+
+(* "~"-prefixed values only replace keys that already exist *)
+Example C04_optional :
+  update [("project", "hamlet"); ("type", "a")] "type=~s&task=~rig" = Ok [("project", "hamlet"); ("type", "s")].
+Proof. vm_compute. reflexivity. Qed.
+Print Assumptions C04_optional.
